@@ -117,7 +117,7 @@ func (d clDoc) render() (string, []int, []int) {
 	return s, starts, ends
 }
 
-var clZones = []string{"+0000", "-0700", "+0530", "+1400", "-1200", "+0100", "-0330", "+0545", "+0900"}
+var clZones = []string{"+0000", "-0700", "+0530", "+1400", "-1200", "+0100", "-0330", "+0545", "+0900", "+0200", "-0230", "-0600", "+0930", "+1030"}
 
 func genChangelog(r *core.Rand, maxEntries int) clDoc {
 	d := clDoc{}
@@ -253,6 +253,23 @@ func (f *failingReader) Read(p []byte) (int, error) {
 	return n, nil
 }
 
+var c17LocalList []*time.Location
+
+// c17Locals: process time zones a reader may run in: fixed ones and, where the zone database is installed, zones
+// with daylight saving (there the same written offset is the local one in one season only).
+func c17Locals() []*time.Location {
+	if c17LocalList == nil {
+		l := []*time.Location{time.UTC, time.FixedZone("CEST", 7200), time.FixedZone("NST", -12600), time.FixedZone("", 14*3600)}
+		for _, name := range []string{"Europe/Berlin", "America/St_Johns", "Australia/Adelaide", "America/Denver"} {
+			if loc, err := time.LoadLocation(name); err == nil {
+				l = append(l, loc)
+			}
+		}
+		c17LocalList = l
+	}
+	return c17LocalList
+}
+
 func parseOneLoop(text string) ([]changelog.ChangelogEntry, error) {
 	return parseOneLoopSized(text, 4096)
 }
@@ -279,9 +296,13 @@ func (p c17) full(c *core.C, d clDoc) {
 	// the process time zone varies from case to case: the instant and offset of a trailer date are what the
 	// text says, wherever the reader happens to run
 	oldLocal := time.Local
-	time.Local = []*time.Location{time.UTC, time.FixedZone("CEST", 7200), time.FixedZone("NST", -12600), time.FixedZone("", 14*3600)}[len(text)%4]
+	zones := c17Locals()
+	time.Local = zones[len(text)%len(zones)]
 	defer func() { time.Local = oldLocal }()
 	c.Cover("env:time.Local-varied")
+	if len(zones) > 4 && len(text)%len(zones) >= 4 {
+		c.Cover("env:time.Local-with-daylight-saving")
+	}
 	for _, path := range []string{"Parse", "Parse-onebyte-reader", "Parse-data+EOF-reader", "Parse-chunk-reader", "ParseFile", "ParseFile-fifo", "ParseOne", "ParseOne-16-byte-reader", "ParseOne-200-byte-reader", "ParseOne-64KiB-reader"} {
 		var got []changelog.ChangelogEntry
 		var err error
